@@ -1,7 +1,7 @@
 """C01 Compiled TEAL computes what the PyTeal expression denotes."""
 from __future__ import annotations
 
-from vf.core import Report, Bounded, Violation
+from vf.core import Report, Bounded, Violation, Ob
 from vf.runner import run_contracts
 from . import e2e
 from .frag import run_fragcheck
@@ -88,6 +88,11 @@ def run(report: Report, tier, seed):
     for b in sdiff[:2]:
         report.violation(Violation(key=f"shared:{b['job'][0]}:{b['job'][1]}", what=f"sharing template {b['job']}: {b['differs']}"[:400], replay={"shared": b["job"]}, confirmed_native=True))
 
+    from . import opsugar
+    on, obad = opsugar.check()
+    report.ob(Ob(id="O1.28/operator-overloads-build-the-documented-expression", function="pyteal.ast.expr.Expr (__lt__ ... __rshift__, And, Or)", kind="E",
+                 status="refuted" if obad else ("discharged" if on >= 200 else "unknown"), backend=f"enumeration({len(opsugar.BUILD)} overloaded operators x {len(opsugar.PAIRS)} asymmetric operand pairs, executed)",
+                 detail="x OP y written with the Python operator computes what the operator means on uint64 (value, or failure on overflow / underflow / division by zero / shift >= 64)", model=obad[:4] or None))
     # the recorded optimiser finding O3.4, shown on a fixed program and attributed exactly (disappears when the multiply-stored slot is withheld)
     from . import opt_native
     w34 = opt_native.o34_witness("result")
